@@ -144,6 +144,15 @@ func TransformModuleFilesToModel( //nolint:funlen,gocognit,cyclop
 				continue
 			}
 
+			if condition.GetMetadata() == nil {
+				transformErrors = multierror.Append(transformErrors, &ModuleTransformationSingleError{
+					Msg:  "file is not a module",
+					File: module.Name,
+				})
+
+				continue
+			}
+
 			condition.Metadata.SourceInfo = &openfgav1.SourceInfo{
 				File: module.Name,
 			}
